@@ -11,8 +11,9 @@ fn bypass_spec(host: &str, entry: &str) -> bool {
 #[test]
 fn vp_native_for_url_matrix() { crate::verif_native_watchdog::watched(vp_native_for_url_matrix_body); }
 fn vp_native_for_url_matrix_body() {
-    let hosts = ["a.test", "xa.test", "b.a.test", "test", "a.test.x", "corp", "notcorp", "my.corp", "127.0.0.1", "[::1]", "A.TEST"];
-    let entries = ["", "a.test", "A.Test", ".a.test", "test", "corp", "orp", "t", "127.0.0.1", "::1", "[::1]", "x"];
+    // (also hosts in which the entry's text occurs more than once: a.a / a, test.test / test, corp.my.corp / corp, 1.1.1.1 / 1.1)
+    let hosts = ["a.test", "xa.test", "b.a.test", "test", "a.test.x", "corp", "notcorp", "my.corp", "127.0.0.1", "[::1]", "A.TEST", "a.a", "test.test", "corp.my.corp", "a.test.a.test", "1.1.1.1", "testing.test"];
+    let entries = ["", "a.test", "A.Test", ".a.test", "test", "corp", "orp", "t", "127.0.0.1", "::1", "[::1]", "x", "a", "1.1"];
     let http = Url::parse("http://proxy.test:3128").unwrap();
     let https = Url::parse("http://secure.test:3129").unwrap();
     let mut cases = 0u64;
@@ -90,7 +91,7 @@ fn vp_native_from_env_matrix_body() {
         std::env::set_var("all_proxy", "http://p1.test:1");
         std::env::set_var("no_proxy", format!("{},{}", a, b));
         let s = ProxySettings::from_env();
-        for host in ["corp.test", "www.corp.test", "notcorp.test", "a.notcorp.test", "xnotcorp.test", "rp.test", "test", "other", "x.other", "h.test"] {
+        for host in ["corp.test", "www.corp.test", "notcorp.test", "a.notcorp.test", "xnotcorp.test", "rp.test", "test", "other", "x.other", "h.test", "test.test", "corp.test.corp.test", "other.other"] {
             let norm = |p: &str| p.trim().trim_start_matches('.').to_lowercase();
             let bypassed = bypass_spec(host, &norm(a)) || bypass_spec(host, &norm(b));
             let got = s.for_url(&Url::parse(&format!("http://{}/", host)).unwrap()).is_some();
